@@ -24,7 +24,7 @@ def run(ctx):
     try:
         for i, tree in enumerate(coregen.precedence_programs()):
             tree = coregen.assign_spans([coregen.Gen.norm_s(s) for s in tree], "main.ms")
-            projs.append({"name": "precedence%d" % i, "files": {"main.ms": coregen.render_ms(tree)}, "entry": "main.ms", "tree": tree, "kind": "skeleton"})
+            projs.append({"name": "precedence%d" % i, "files": {"main.ms": coregen.render_ms(tree)}, "entry": "main.ms", "tree": tree, "kind": "skeleton", "minimal_parens": True})
             n_prec += 1
     finally:
         coregen.MINIMAL_PARENS = False
